@@ -111,6 +111,14 @@ func (s *ReverseAnchoredSearcher) Find(haystack []byte) *Match {
 	cache := s.revCachePool.Get().(*lazy.DFACache)
 	matchStart := s.reverseDFA.SearchReverse(cache, haystack, 0, len(haystack))
 	s.revCachePool.Put(cache)
+	if matchStart == lazy.SearchReverseLimitedQuadratic {
+		// Reverse DFA gave up (cache full or cleared mid-scan): forward NFA answers.
+		start, end, matched := s.forwardPikevm.Search(haystack)
+		if !matched {
+			return nil
+		}
+		return NewMatch(start, end, haystack)
+	}
 	if matchStart < 0 {
 		return nil
 	}
@@ -137,7 +145,12 @@ func (s *ReverseAnchoredSearcher) IsMatch(haystack []byte) bool {
 	// Use reverse DFA to scan backward from end to start
 	// ZERO-ALLOCATION: IsMatchReverse scans backward without byte reversal
 	cache := s.revCachePool.Get().(*lazy.DFACache)
-	result := s.reverseDFA.IsMatchReverse(cache, haystack, 0, len(haystack))
+	result, ok := s.reverseDFA.TryIsMatchReverse(cache, haystack, 0, len(haystack))
 	s.revCachePool.Put(cache)
+	if !ok {
+		// Reverse DFA gave up (cache full or cleared mid-scan): forward NFA answers.
+		_, _, matched := s.forwardPikevm.Search(haystack)
+		return matched
+	}
 	return result
 }
